@@ -141,6 +141,52 @@ def put_alloc(targets, version='1.36', consumer=1, project='proj',
     return request
 
 
+BANDS_PUT = [(0, 7), (8, 11), (12, 27), (28, 33), (34, 37), (38, 39)]
+BANDS_POST = [(13, 27), (28, 33), (34, 37), (38, 39)]
+
+
+def put_alloc_anyversion(targets, post=False):
+    """the same write at every microversion: the band (which fixes the
+    document format) is an explorer decision, the minor inside the band is
+    symbolic"""
+    def request(ctx, w, shape):
+        bands = BANDS_POST if post else BANDS_PUT
+        lo, hi = bands[symex.choose(len(bands))]
+        app.sym_minor(ctx, lo, hi)
+        version = '1.%d' % lo
+        allocs = {}
+        for i, t in enumerate(targets):
+            uuid = BAD if t == 'bad' else U(t)
+            allocs[uuid] = {'resources': {'VCPU': ctx.int('amt_%d' % i)}}
+        body = _alloc_body(ctx, allocs, version, n=1)
+        if post:
+            return app.call('POST', '/allocations', {CONS(1): body},
+                            version='sym')
+        return app.call('PUT', '/allocations/' + CONS(1), body,
+                        version='sym')
+    return request
+
+
+def put_alloc_placeholder_conf(project_id, user_id):
+    """PUT below 1.8 (no project/user in the body) under a configured
+    [placement] incomplete_consumer_project_id / incomplete_consumer_user_id"""
+    inner = put_alloc([1], version='1.0')
+
+    def request(ctx, w, shape):
+        ctx.data['conf'] = dict(incomplete_consumer_project_id=project_id,
+                                incomplete_consumer_user_id=user_id)
+        old = (app.CONF.placement.incomplete_consumer_project_id,
+               app.CONF.placement.incomplete_consumer_user_id)
+        app.set_conf('placement', incomplete_consumer_project_id=project_id,
+                     incomplete_consumer_user_id=user_id)
+        try:
+            return inner(ctx, w, shape)
+        finally:
+            app.set_conf('placement', incomplete_consumer_project_id=old[0],
+                         incomplete_consumer_user_id=old[1])
+    return request
+
+
 def put_alloc_empty(version='1.36', consumer=1):
     def request(ctx, w, shape):
         body = _alloc_body(ctx, {}, version, n=consumer)
@@ -335,6 +381,14 @@ def shapes(tier):
           kind='alloc', targets=[1], consumers=[1]),
         S('alloc-put-1.0', put_alloc([1], version='1.0'), version='1.0',
           kind='alloc', targets=[1], consumers=[1], project=None, user=None),
+        S('alloc-put-1.0-conf', put_alloc_placeholder_conf('ph-proj',
+                                                           'ph-user'),
+          version='1.0', kind='alloc', targets=[1], consumers=[1],
+          project=None, user=None),
+        S('alloc-put-1.0-conf-existing-names',
+          put_alloc_placeholder_conf('proj2', 'user2'),
+          version='1.0', kind='alloc', targets=[1], consumers=[1],
+          project=None, user=None),
         S('alloc-put-1.38', put_alloc([1], version='1.38'), version='1.38',
           kind='alloc', wkw=dict(ctypes=True), targets=[1], consumers=[1],
           ctype='INSTANCE'),
@@ -353,6 +407,12 @@ def shapes(tier):
                     ctype='MIGRATION'),
           version='1.38', kind='alloc', wkw=dict(ctypes=True), targets=[1],
           consumers=[1], user='user2', ctype='MIGRATION'),
+        S('alloc-put-anyversion', put_alloc_anyversion([1]), kind='alloc',
+          version='sym', wkw=dict(ctypes=True), targets=[1], consumers=[1],
+          project=None, user=None),
+        S('alloc-post-anyversion', put_alloc_anyversion([1], post=True),
+          kind='alloc', version='sym', wkw=dict(ctypes=True), targets=[1],
+          consumers=[1]),
         S('alloc-post-2c', post_alloc({1: [1], 3: [1]}), kind='alloc',
           targets=[1], consumers=[1, 3]),
         S('alloc-post-clear+new', post_alloc({1: [], 3: [1]}), kind='alloc',
